@@ -89,6 +89,12 @@ def gen_cases(tier, seed):
     n = 0
     for fam in FAMS:
         for size in sizes + big:
+            # the keyspace model keeps its index and object heaps as association lists: replaying a SCAN case costs
+            # about 50 ms per step at 257 keys and far more than 100 times that at 1000 keys (measured), so SCAN is replayed
+            # up to 257 keys; the per-key scans keep the large sizes (3000 members replay in 3 s).  All sizes are
+            # covered by the theorem C19_scan; the replay only ties the model to the code.
+            if fam == "SCAN" and size > 257:
+                continue
             counts = [None, 1, 2, 3, 10, max(size - 1, 1), max(size, 1), size + 1, 1000]
             if size >= 100:
                 counts = [None, max(size // 40, 7), size - 1, size, size + 1, 5000] + ([10] if size <= 257 else [])
